@@ -44,12 +44,16 @@ META = {
         "agree on every node and container with the one-block-at-a-time model functions and represent the list with the "
         "yielded blocks spliced in, in yield order (dll_insertStreamBefore, dll_appendStream; on consistent IR for every "
         "successful call: insert_block_before_single_pass, add_block_single_pass); attaching without linking — what a second "
-        "pass over an exhausted one-shot iterator leaves — is not well-formed (attach_without_link_counterexample). Theorems are in "
+        "pass over an exhausted one-shot iterator leaves — is not well-formed (attach_without_link_counterexample). The state a "
+        "raising multi-element call leaves behind (XdslModel/IRPartial.lean: foldLeft = the steps before the first raising one) "
+        "satisfies Inv for Block.add_ops, Block.insert_ops_before and Region.add_block (add_ops_/insert_ops_before_/"
+        "add_block_raising_state_inv; foldLeft_of_ok: it is the result of the call when nothing raises). Theorems are in "
         "XdslProofs/C01.lean. Tie to /repo: every history (constructor calls from the empty universe + 1–60 mutation "
         "calls, ~80 % satisfying their preconditions; every collection-typed parameter of every call — 27 parameters of 21 "
         "of the 58 call kinds — passed as a drawn instance of its DECLARED type: Iterable[X] as list, tuple, custom Sequence, "
         "re-iterable non-sequence, generator, iter(list) or map object, Sequence[X] as list, tuple or custom Sequence, "
-        "`X | Iterable[X]` also as the object itself; the Lean model receives the element list) is executed on real xDSL objects; after every successful call an "
+        "`X | Iterable[X]` also as the object itself; the Lean model receives the element list) is executed on real xDSL objects; after every successful call — and after every raising call of a re-linking kind "
+        "that left a changed state behind (skipped, but the history continues from that state) — an "
         "independent whole-tree invariant walk is the oracle, and the full public observation (ops forward/backward, "
         "blocks, parents, operands, successors, use lists as sorted multisets, index fields, and the exception class of "
         "raising calls) is compared line by line with the Lean model IRStore replaying the same history."
@@ -67,9 +71,16 @@ META = {
         "claimed about them): calls on objects that were erased; Operation.drop_all_references on an attached operation "
         "(docstring: 'called prior to deleting an operation'); creating parent cycles through the unguarded "
         "Region.move_blocks/move_blocks_before/Rewriter.inline_region/Operation.add_region; a builtin.module with operands or "
-        "results. A call that raises must leave every observation unchanged, otherwise the history is abandoned at that "
-        "point (xDSL mutates before raising in erase_arg, add_ops, add_block, replace_op, erase, inline_block …): the "
-        "quantifier skips raising calls, so states produced by them are not judged. Use lists are compared as multisets "
+        "results. Calls that raise are skipped, as the quantifier says; the IR they leave behind is what the rest of the "
+        "history works on. A raising call of a RE-LINKING kind (31 of the 58: creates no object and erases none — add_ops, "
+        "insert_ops_*, add_block, insert_block*, move_blocks*, add_region, detach_*, operand/successor setters, "
+        "replace_*uses*, Rewriter.insert_op/insert_block/inline_region, PatternRewriter.insert …) that changed an observation "
+        "(the elements before the rejected one stay inserted) is judged by the invariant walk exactly like a successful call, and so is "
+        "every later successful call of the history; only the comparison with the Lean model stops there (the model returns an "
+        "error without a state). A raising call of a creating or erasing kind that changed an observation (Operation.create, "
+        "Block(ops), Region(blocks), erase_arg, replace_op, erase_op(safe_erase), inline_block …) still ends the history "
+        "unjudged: it leaves a half-built object the harness cannot name, or a half-erased one (calls on erased objects are "
+        "outside the contract). Use lists are compared as multisets "
         "(their order is not part of the statement). Side observation, not a C01 matter: the ValueError message of "
         "SSAValue.erase prints the half-erased owner and the printer can raise IndexError instead; such calls are counted "
         "as raising ValueError. inv_step covers all 58 call kinds under the drop_all_references contract: see 'text'. "
@@ -85,7 +96,11 @@ META = {
         "Random: generated seed IR (nested regions ≤ depth 2, 1–4 blocks per region with successors, values used across "
         "blocks and regions, spare detached parts) followed by 1–60 calls drawn from 58 kinds, 80 % valid-by-construction, "
         "20 % arbitrary live arguments; argument forms drawn per collection parameter (all lists with probability 0.35, "
-        "seed calls 0.6). Non-trivial = at least one successful call after the seed prefix changed an "
+        "seed calls 0.6); 30 % of the arbitrary-mode draws are POISONED insertions: a valid call of one of the 10 re-linking kinds "
+        "that take a collection of ops/blocks, with one arbitrary live object inserted at a non-first position (raises after the "
+        "elements before it were inserted when that object is attached elsewhere, repeated, or a container of the destination). "
+        "States left by raising re-linking calls are judged (enumeration: every ≤2-element collection incl. [detached, attached]). "
+        "Non-trivial = at least one successful call after the seed prefix changed an "
         "observation (random) / the enumerated call succeeded (enumeration); distinct = distinct call list."
     ),
     "trusted_base": [
@@ -338,6 +353,27 @@ def strip_forms(call: list[Any]) -> list[Any]:
 # ---------------------------------------------------------------------------------------------
 # World: the real xDSL objects of one history, by id
 # ---------------------------------------------------------------------------------------------
+# ---------------------------------------------------------------------------------------------
+# Calls that only RE-LINK existing objects: nothing is created (a constructor-like call that raises
+# leaves a half-built object the harness cannot name) and nothing is erased (a half-erased object is
+# neither live nor erased, and calls on erased objects are outside the contract).  Derived from SIG:
+# no created-object code, no safe_erase flag, not one of the four erasing kinds without a flag.
+# When such a call raises, every object is still known and live, so the whole-tree invariant walk
+# means exactly what it means after a successful call: the state a raising re-linking call leaves
+# behind IS judged ("calls that raise are skipped": the history without the call must have led to a
+# consistent IR, and this is the IR the next call starts from), and the history goes on.
+# ---------------------------------------------------------------------------------------------
+_CREATES = ("NO", "NB", "NR", "NV", "NVL")
+_ERASES_WITHOUT_FLAG = ("region_erase", "drop_all_references", "rw_inline_block", "pr_inline_block")
+RELINK = frozenset(n for n, sig in SIG.items()
+                   if not any(c in _CREATES or c == "S" for c in sig) and n not in _ERASES_WITHOUT_FLAG)
+POISONABLE = sorted(n for n in RELINK if any(c in ("OL", "OS", "BS") for c in SIG[n]))
+assert {"add_ops", "insert_ops_before", "insert_ops_after", "add_block", "insert_block_before", "insert_block",
+        "rw_insert_op", "rw_insert_block", "pr_insert", "move_blocks", "rw_inline_region", "set_operands"} <= RELINK
+assert not RELINK & {"new_op", "new_block", "new_region", "erase_op", "erase_arg", "op_erase", "rw_replace_op",
+                     "pr_replace", "split_before", "insert_arg", "rw_replace_value_with_new_type"}
+
+
 class World:
     def __init__(self) -> None:
         self.o: dict[int, Any] = {}
@@ -991,9 +1027,15 @@ def oracle(W: World) -> list[tuple[str, str]]:
 # ---------------------------------------------------------------------------------------------
 class Runner:
     """Executes calls one by one on a fresh world; after every *successful* call the oracle is
-    evaluated.  A call that raises must leave every observation unchanged; if it does not (xDSL
-    mutates before it raises in several places) the history is abandoned there: the quantifier
-    skips raising calls, so nothing is judged on a state only a raising call produced."""
+    evaluated.  A call that raises and leaves every observation unchanged is simply skipped.  A raising
+    call that changed an observation (xDSL mutates before it raises in several places):
+    * a re-linking call (RELINK: creates nothing, erases nothing) — the state it leaves behind is judged
+      by the oracle like the state after a successful call (the history with the raising call skipped must
+      have produced consistent IR, and every later call starts from this state) and the history goes on,
+      judged after every later successful call; only the comparison with the Lean model (which returns an
+      error without a state) ends there (`offmodel`);
+    * a creating or erasing call — the history is abandoned there (`abandoned`): it leaves a half-built
+      object the harness cannot name, or a half-erased one, and nothing is judged on such a state."""
 
     def __init__(self, keep_obs: bool = False, quiet_prefix: int = 0) -> None:
         # the first `quiet_prefix` calls are a prefix that has been judged before (the fixed seed of the
@@ -1006,9 +1048,11 @@ class Runner:
         self.calls: list[list[Any]] = []
         self.fail: dict[str, Any] | None = None
         self.abandoned: int | None = None
+        self.offmodel: int | None = None  # first raising RELINK call that changed an observation
         self.keep_obs = keep_obs
         self.obs: list[list[str] | None] = []
         self.changed = 0  # successful calls that changed some observation
+        self.partial_raises = 0  # raising re-linking calls that changed some observation (their state is judged)
 
     @property
     def stopped(self) -> bool:
@@ -1038,16 +1082,22 @@ class Runner:
         if self.keep_obs:
             self.obs.append(cur)
         if st != "ok":
-            if cur != self.prev:
+            if cur == self.prev:
+                return st
+            if strip_forms(call)[0] not in RELINK:
                 self.abandoned = len(self.calls) - 1
-            return st
+                return st
+            if self.offmodel is None:
+                self.offmodel = len(self.calls) - 1
+            self.partial_raises += 1
+            # fall through: the state left behind by the raising re-linking call is judged
         try:
             complaints.extend(oracle(self.W))
         except Exception as e:  # noqa: BLE001
             complaints.append(("traversal", f"invariant walk raises {type(e).__name__}: {e}"))
         if complaints:
-            self.fail = {"step": len(self.calls) - 1, "call": call, "complaints": complaints, "state": cur}
-        if cur != self.prev:
+            self.fail = {"step": len(self.calls) - 1, "call": call, "complaints": complaints, "state": cur, "status": st}
+        if cur != self.prev and st == "ok":
             self.changed += 1
         self.prev = cur
         return st
@@ -1083,7 +1133,7 @@ def signature_of(fail: dict[str, Any]) -> str:
     for the failure back into a list first)"""
     forms = forms_of(fail["call"])
     form = " [one-shot iterable]" if any(f in ONE_SHOT for f in forms) else (" [non-list collection]" if forms else "")
-    return base_signature(fail) + form
+    return base_signature(fail) + form + (" [state left by a raising call]" if fail.get("status", "ok") != "ok" else "")
 
 
 # ---------------------------------------------------------------------------------------------
@@ -1619,11 +1669,37 @@ class Gen:
             call[2] = "op"  # a builtin.module has no operands, results or successors (its printer assumes so)
         return call
 
+    def poisoned(self) -> list[Any] | None:
+        """a valid multi-object insertion (any re-linking kind that takes a collection of ops or blocks) with ONE
+        arbitrary live object put at a non-first position: when that object is not acceptable (attached elsewhere,
+        already in the collection, a container of the destination) the call raises after the objects before it
+        have been dealt with — the state such a call leaves behind is judged (see RELINK)"""
+        name = self.rng.choice(POISONABLE)
+        call = getattr(self, "v_" + name)()
+        if call is None:
+            return None
+        call = list(call)
+        for pos, code in enumerate(SIG[name], start=1):
+            if code in ("OL", "OS", "BS"):
+                xs = list(call[pos] if code == "OL" else call[pos][0])
+                pool = self.W.live_ids("b" if code == "BS" else "o")
+                if not xs or not pool:
+                    return None
+                xs.insert(self.rng.randint(1, len(xs)), self.rng.choice(pool))
+                call[pos] = xs if code == "OL" else [xs, False]
+                return call
+        return None
+
     def draw(self, p_valid: float = 0.8) -> tuple[list[Any], bool] | None:
         names = list(SIG)
         for _ in range(20):
             name = self.rng.choices(names, weights=[WEIGHT[n] for n in names])[0]
             valid = self.rng.random() < p_valid
+            if not valid and self.rng.random() < 0.3:
+                call = self.poisoned()
+                if call is not None and contract_ok(self.R.ex, call):
+                    return self.with_forms(call), False
+                continue
             call = getattr(self, "v_" + name)() if valid else self.arbitrary(name)
             if call is not None and contract_ok(self.R.ex, call):
                 return self.with_forms(call), valid
@@ -1751,8 +1827,8 @@ class Correspondence:
             self.lines.append(encode(c))
             self.expect.append(st if st != "ok" else None if R.obs[i] is None else "ok " + "; ".join(R.obs[i]))
             self.where.append((h, i))
-            if R.abandoned == i:
-                break
+            if R.abandoned == i or R.offmodel == i:
+                break  # (the model returns an error without a state: nothing to compare from here on)
 
     def check(self, ctx: core.Ctx) -> None:
         if not self.lines:
@@ -1793,11 +1869,12 @@ class Correspondence:
 # ---------------------------------------------------------------------------------------------
 def shrink_failure(calls: list[list[Any]], fail: dict[str, Any]) -> tuple[list[list[Any]], dict[str, Any]]:
     """smallest sub-history on which the same call kind trips the same kind of complaint"""
-    name, sig = fail["call"][0], base_signature(fail)
+    name, sig, raised = fail["call"][0], base_signature(fail), fail.get("status", "ok") != "ok"
 
     def still(c: list[list[Any]]) -> bool:
         f = run_history(c).fail
-        return f is not None and f["call"][0] == name and base_signature(f) == sig
+        return (f is not None and f["call"][0] == name and base_signature(f) == sig
+                and (f.get("status", "ok") != "ok") == raised)
 
     def plain(c: list[Any]) -> list[Any]:
         """the call with every collection passed as a list (single objects as one-element lists)"""
@@ -1856,7 +1933,9 @@ def report(ctx: core.Ctx, calls: list[list[Any]], fail: dict[str, Any]) -> None:
     name = f["call"][0]
     ctx.fail(
         CALL_SITE[name], signature_of(f), {"calls": small},
-        f"after the successful call {json.dumps(f['call'])} (step {f['step']} of the shrunk history) the whole-tree "
+        (f"after the successful call {json.dumps(f['call'])}" if f.get("status", "ok") == "ok" else
+         f"the call {json.dumps(f['call'])} raises ({f['status'][6:]}), is skipped, and leaves a state in which")
+        + f" (step {f['step']} of the shrunk history) the whole-tree "
         f"invariant walk reports: " + "; ".join(m for _, m in f["complaints"][:4]),
         {"statuses": run_history(small).statuses, "state_after_failing_call": f["state"]},
         "every op/block/region exactly once in its container forward and backward with matching parent; "
@@ -1898,6 +1977,9 @@ def random_history(ctx: core.Ctx, max_calls: int = 60, p_valid: float = 0.8) -> 
             ctx.extra.setdefault("valid_mode_raises", Counter())[f"{call[0]}: {st}"] += 1
     if R.ex.raised_while_formatting:
         ctx.count("calls.raise-while-formatting-error-message", R.ex.raised_while_formatting)
+    if R.partial_raises:
+        ctx.count("calls.raising-relink-with-partial-effect.judged", R.partial_raises)
+        ctx.count("histories.continued-after-partial-raise")
     if R.abandoned is not None:
         ctx.count("histories.abandoned-after-corrupting-raise")
         ctx.extra.setdefault("corrupting_raises", Counter())[f"{R.calls[R.abandoned][0]}: {R.statuses[R.abandoned]}"] += 1
@@ -2086,11 +2168,16 @@ def replay(ctx: core.Ctx, body: dict) -> int:
     for i, (c, st) in enumerate(zip(R.calls, R.statuses)):
         mine = "ok " + "; ".join(R.obs[i]) if st == "ok" else st
         agree = "agrees" if model[i] == mine else "DIFFERS"
+        if R.offmodel is not None and i > R.offmodel:
+            agree = "not compared"
         if agree == "DIFFERS" and differ is None:
             differ = i
         print(f"[{i}] {json.dumps(c)} -> real xDSL: {st} | lean model: {model[i].split(' ', 1)[0] if model[i].startswith('ok') else model[i]} ({agree})")
+    if R.offmodel is not None:
+        print(f"the raising re-linking call at step {R.offmodel} changed the observable state: that state and every later "
+              f"one is judged by the invariant walk; the Lean model (error = no state) is compared up to that step only")
     if R.abandoned is not None:
-        print(f"history abandoned at step {R.abandoned}: the raising call changed the observable state")
+        print(f"history abandoned at step {R.abandoned}: the raising (creating/erasing) call changed the observable state")
     if differ is not None:
         i = differ
         mine = R.obs[i] if R.statuses[i] == "ok" else [R.statuses[i]]
